@@ -169,3 +169,18 @@ func runScenario(cfg *vlib.Config, r *vlib.Report, sc *Scenario, b Bounds) {
 			replayT{Scenario: sc.Name, Choices: f.Choices, Msg: msg, Outcome: f.Outcome, Blocked: f.Blocked, Trace: f.Trace})
 	}
 }
+
+// Guard classifies executions that did not end normally: deadlock (class carries the blocked
+// sites), crash (uncaught panic in a thread), horizon (step bound: livelock). nil for "ok".
+func Guard(e *vsched.Exec) *Verdict {
+	switch e.Outcome {
+	case "ok":
+		return nil
+	case "deadlock":
+		return &Verdict{Class: "deadlock{" + e.BlockedKey() + "}", Msg: "deadlock: " + strings.Join(e.Blocked(), " "), Sig: "deadlock"}
+	case "crash":
+		return &Verdict{Class: "crash", Msg: "uncaught panic in a thread: " + strings.Join(e.Panics(), "; "), Sig: "crash"}
+	default:
+		return &Verdict{Class: e.Outcome, Msg: e.Outcome + ": " + strings.Join(e.Blocked(), " "), Sig: e.Outcome}
+	}
+}
